@@ -92,7 +92,10 @@ namespace detail
 
 		genIUType const prev = static_cast<genIUType>(1) << findMSB(value);
 		genIUType const next = prev << static_cast<genIUType>(1);
-		return static_cast<genIUType>(next - value) < static_cast<genIUType>(value - prev) ? next : prev;
+		// Compare the distances on the unsigned type: next is the most negative value of a signed type when prev is its
+		// largest power of two, and next - value overflows
+		typedef typename detail::make_unsigned<genIUType>::type UT;
+		return static_cast<UT>(static_cast<UT>(next) - static_cast<UT>(value)) < static_cast<UT>(static_cast<UT>(value) - static_cast<UT>(prev)) ? next : prev;
 	}
 
 	template<length_t L, typename T, qualifier Q>
